@@ -515,7 +515,7 @@ macro_rules! typed_path_read {
 /// stdin, kind-4 format without the kind) are written with
 /// `ShapeWriter::from_path`, then read back with `read_shapes` (index present),
 /// `read_shapes_as::<T>` and, after removing the .shx, `ShapeReader::from_path`.
-fn path_mode(path: &str) {
+fn path_mode(path: &str, keep: bool) {
     let mut line = String::new();
     std::io::stdin().read_line(&mut line).unwrap();
     let v: Vec<W> = line.split_ascii_whitespace().map(|t| t.parse::<W>().unwrap()).collect();
@@ -534,6 +534,10 @@ fn path_mode(path: &str) {
         for s in &shapes {
             with_concrete!(s, x => w.write_shape(x), unreachable!()).expect("write");
         }
+    }
+    if keep {
+        // the caller compares the files on disk with the in-memory destinations' bytes
+        return;
     }
     print_items(shapefile::read_shapes(path));
     typed_path_read!(path, &shapes[0]);
@@ -569,7 +573,11 @@ fn main() {
     watchdog();
     let args: Vec<String> = std::env::args().collect();
     if args.len() == 3 && args[1] == "path" {
-        path_mode(&args[2]);
+        path_mode(&args[2], false);
+        return;
+    }
+    if args.len() == 4 && args[1] == "path" && args[3] == "keep" {
+        path_mode(&args[2], true);
         return;
     }
     if args.len() == 4 && args[1] == "sweep" {
